@@ -17,6 +17,12 @@ CHECKS = {
     "C02": _c("exploration",
               "Every wake-up request logged by instrumented nodes (source scripts scheduled from start and from eval, tickers, delay timers, scheduler scripts with tags/cancels, feedback, timers inside nested children) must have a root cycle at exactly its time that evaluates the requesting node; the root cycle sequence must equal the model's (no drop, shift, phantom), be strictly increasing inside [start,end); after each cycle next_scheduled_time() must equal the model's earliest pending request and the minimum over per-node slots.",
               "DESIGN.md section 3 C02", TRUST + " SchedModel is the pending-set specification.", "runtime monitoring: request/cycle trace checker + reference model of pending wake-ups"),
+    "C04": _c("exploration",
+              "Two passive probe nodes per output (different ranks) woken every smallest step by a dense clock dump, for the endpoint and recursively every child of TSB/TSL/TSD, valid / all_valid / modified / last_modified_time / value / delta readability; the oracle is computed from the producer's write log alone: modified(t) iff written at t (parents iff a child was), lmt = latest write, valid from first write until invalidation; both probes and the tick-driven mirror must agree; collection delta parts must be empty in cycles without a write.",
+              "DESIGN.md section 3 C04", TRUST + " vp/collmodel.py tracks write times per endpoint.", "runtime monitoring: passive probe consumers vs write-log oracle"),
+    "C05": _c("exploration",
+              "Mirror nodes read value/added/removed/modified items/removed values/canonical delta every tick of scripted TSS/TSD/TSL/TSB/TSW sources (nested shapes, cancelling and re-inserting mutations within a cycle, growth to 200 keys). Checked per tick: value == shadow model; value_t == value_{t-1} + delta_t; added/removed disjoint, added present, removed absent now and present before; delta == net effect of the cycle's script; modified keys == surviving keys written this cycle; window == last N pushes with the minimum-count gate.",
+              "DESIGN.md section 3 C05", TRUST + " vp/collmodel.py is the value/delta semantics (calibrated: erase+re-insert in one cycle resurrects the child).", "runtime monitoring: mirror-node log vs shadow state + delta self-coherence"),
     "C06": _c("exploration",
               "Metamorphic: one dataflow wired under several admissible statement orders (incl. consumer-before-producer via delayed bindings) must give identical user-code runs and streams (pairwise and vs the model); exact duplicate sub-expressions may share (instance count 1 or 2, outputs unchanged), wirings differing in exactly one input or one scalar and duplicated sinks must stay distinct (instance counts from start logs).",
               "DESIGN.md section 3 C06", TRUST, "runtime monitoring: metamorphic differential over wiring orders + instance counting"),
